@@ -23,6 +23,7 @@ type Surface struct {
 	ClientHasSec     bool
 	HandlerMethods   []Method
 	WebhookMethods   []Method // methods of WebhookHandler (OpenAPI 3.1 webhooks)
+	HasRequestOptions bool    // feature client/request/options: WithServerURL exists
 	SecSourceMethods []Method
 	TypeNames        []string // exported non-interface named types
 }
@@ -182,6 +183,8 @@ func InspectDir(dir, pkg string) (*Surface, error) {
 					continue
 				}
 				switch dd.Name.Name {
+				case "WithServerURL":
+					s.HasRequestOptions = true
 				case "NewServer":
 					s.HasServer = true
 					for _, p := range dd.Type.Params.List {
